@@ -19,11 +19,12 @@ def render(s, dialect="ansi"):
             return "alter table %s rename to %s" % (ps[0][0], ps[0][1])
         return "rename table " + ", ".join("%s to %s" % (p[0], p[1]) for p in ps)
     r, w = sorted(s["r"]), s["w"]
+    what = "1" if s.get("cl") else "*"
     if w == "none":
-        return "select * from " + ", ".join(r)
+        return "select %s from %s" % (what, ", ".join(r))
     if not r:
         return "insert into %s values (1)" % w
-    return "insert into %s select * from %s" % (w, ", ".join(r))
+    return "insert into %s select %s from %s" % (w, what, ", ".join(r))
 
 
 def dialect_of(s):
